@@ -452,6 +452,44 @@ fn gen_safe(args: &Args, out: &mut dyn Write) {
     let thorough = args.tier == "thorough";
     let n = args.n.unwrap_or(if thorough { 400_000 } else { 20_000 });
     let mut rng = Rng::new(args.seed ^ 0x5AFE);
+    let hexs = |p: &[[f32; 3]]| -> Vec<[String; 3]> { p.iter().map(|p| [0, 1, 2].map(|j| format!("{:08x}", p[j].to_bits()))).collect() };
+    // (1) triangles that cross ALL SIX planes of the view volume, so that what remains has nine corners
+    // (the most a clipped triangle can have): two known ones and small perturbations of them
+    for i in 0..(if thorough { 2_000 } else { 120 }) {
+        let ortho = i % 2 == 0;
+        let base: [[f32; 3]; 3] = if ortho { [[-8.0, 8.0, 6.0], [0.0, -8.0, 14.0], [8.0, 0.0, -2.0]] } else { [[22.0, -21.0, -6.0], [-10.0, 1.0, 17.0], [-6.0, 6.0, 3.0]] };
+        let amp = if i < 2 { 0.0 } else { *rng.pick(&[0.01f64, 0.1, 0.3]) };
+        let mut pts: Vec<[f32; 3]> = base.iter().map(|p| [0, 1, 2].map(|j| p[j] + ((rng.unit_f64() * 2.0 - 1.0) * amp) as f32)).collect();
+        if i % 3 == 2 { pts.swap(1, 2); }
+        let proj = if ortho { json!({"ty": "ortho", "box": [-5.0, -5.0, 1.0, 5.0, 5.0, 11.0]}) } else { json!({"ty": "persp", "f": 1.0, "aspect": 1.0, "near": 1.0, "far": 10.0}) };
+        let ctx = json!({"cull": rng.below(3), "sort": rng.below(3), "test": rng.below(4), "cw": 1, "dw": rng.below(2), "disc": 0, "kind": if i % 5 == 4 { "col" } else { "fb" }});
+        writeln!(out, "{}", json!({"k": format!("f9-{}-{}", args.seed, i), "op": "safe", "bw": 16, "bh": 16, "vp": [0, 0, 16, 16], "proj": proj,
+                                   "pts": hexs(&pts), "faces": [[0, 1, 2]], "ctx": ctx, "win": i % 3})).unwrap();
+    }
+    // (2) many triangles in one sorted call, at depths a hair apart (chains of nearly equal sort keys)
+    for i in 0..(if thorough { 600 } else { 60 }) {
+        let nf = rng.range(22, 90) as usize;
+        let (near, far) = (1.0f64, *rng.pick(&[10.0f64, 100.0]));
+        let z0 = near * (1.5 + rng.unit_f64() * 3.0);
+        let dz = *rng.pick(&[1e-2f64, 1e-3, 3e-4, 1e-4, 3e-5, 1e-5, 1e-6]);
+        let mut pts: Vec<[f32; 3]> = vec![];
+        let mut faces = vec![];
+        for j in 0..nf {
+            // (not in depth order: shuffled by a stride coprime to nf)
+            let jj = (j * 7 + 3) % nf;
+            let z = z0 * (1.0 + jj as f64 * dz);
+            let (cx, cy) = ((rng.unit_f64() - 0.5) * 0.6 * z, (rng.unit_f64() - 0.5) * 0.6 * z);
+            for (dx, dy) in [(-0.3, -0.2), (0.3, -0.1), (0.0, 0.3)] {
+                pts.push([(cx + dx * z) as f32, (cy + dy * z) as f32, (z * (1.0 + (rng.unit_f64() - 0.5) * dz * 0.5)) as f32]);
+            }
+            faces.push([3 * j, 3 * j + 1, 3 * j + 2]);
+        }
+        let persp = i % 3 != 0;
+        let proj = if persp { json!({"ty": "persp", "f": 1.0, "aspect": 1.0, "near": near, "far": far}) } else { json!({"ty": "ortho", "box": [-4.0, -4.0, near, 4.0, 4.0, far]}) };
+        let ctx = json!({"cull": rng.below(3), "sort": 1 + rng.below(2), "test": rng.below(4), "cw": 1, "dw": 1, "disc": 0, "kind": "fb"});
+        writeln!(out, "{}", json!({"k": format!("fm-{}-{}", args.seed, i), "op": "safe", "bw": 20, "bh": 20, "vp": [0, 0, 20, 20], "proj": proj,
+                                   "pts": hexs(&pts), "faces": faces, "ctx": ctx, "win": 0})).unwrap();
+    }
     for i in 0..n {
         let (bw, bh) = match rng.below(6) {
             0 => (1, 1),
